@@ -10,7 +10,8 @@ Irrs == {-2, 0, 1, 3}
 Prefixes == 0..3
 (* shape classes: "s" scalar, "v" 1-D (n wavelengths), "m0"/"m1" 2-D with the      *)
 (* wavelength on axis 0 / 1 (axis passed), "mb" 2-D broadcast (axis not passed)    *)
-Shapes == {"s", "v", "m0", "m1", "mb"}
+(* "c0","c1","c2": 3-D array (2 x 2 x n) with the wavelength moved to axis 0 / 1 / 2 (axis passed) *)
+Shapes == {"s", "v", "m0", "m1", "mb", "c0", "c1", "c2"}
 UnitModes == {"plain", "pint-I", "pint-uWcm2", "pint-um"}
 
 LamVec(l0) == <<l0, l0 + 100, l0 + 300>>
